@@ -2,7 +2,6 @@ package formatter
 
 import (
 	"bytes"
-	"strings"
 
 	"github.com/ysugimoto/falco/v2/ast"
 )
@@ -100,7 +99,7 @@ func (f *Formatter) formatImportStatement(stmt *ast.ImportStatement) string {
 
 	buf.Reset()
 	buf.WriteString("import ")
-	buf.WriteString(stmt.Name.String())
+	buf.WriteString(f.formatNode(stmt.Name))
 	buf.WriteString(";")
 
 	return buf.String()
@@ -166,8 +165,8 @@ func (f *Formatter) formatDeclareStatement(stmt *ast.DeclareStatement) string {
 	if v := f.formatComment(stmt.Infix, " ", 0); v != "" {
 		buf.WriteString(v)
 	}
-	buf.WriteString("local " + stmt.Name.String())
-	buf.WriteString(" " + stmt.ValueType.String())
+	buf.WriteString("local " + f.formatNode(stmt.Name))
+	buf.WriteString(" " + f.formatNode(stmt.ValueType))
 	if stmt.Value != nil {
 		buf.WriteString(" = ")
 		buf.WriteString(f.formatExpression(stmt.Value).ChunkedString(stmt.Nest, buf.Len()))
@@ -183,7 +182,7 @@ func (f *Formatter) formatSetStatement(stmt *ast.SetStatement) string {
 	defer bufferPool.Put(buf)
 
 	buf.Reset()
-	buf.WriteString("set " + stmt.Ident.String())
+	buf.WriteString("set " + f.formatNode(stmt.Ident))
 	buf.WriteString(" " + stmt.Operator.Operator + " ")
 	buf.WriteString(f.formatExpression(stmt.Value).ChunkedString(stmt.Nest, buf.Len()))
 	buf.WriteString(";")
@@ -197,7 +196,7 @@ func (f *Formatter) formatUnsetStatement(stmt *ast.UnsetStatement) string {
 	defer bufferPool.Put(buf)
 
 	buf.Reset()
-	buf.WriteString("unset " + stmt.Ident.String())
+	buf.WriteString("unset " + f.formatNode(stmt.Ident))
 	buf.WriteString(";")
 
 	return buf.String()
@@ -213,9 +212,9 @@ func (f *Formatter) formatRemoveStatement(stmt *ast.RemoveStatement) string {
 	// The "remove" statement is alias of "unset" statement,
 	// so it could replaced to unset by configuration
 	if f.conf.ShouldUseUnset {
-		buf.WriteString("unset " + stmt.Ident.String())
+		buf.WriteString("unset " + f.formatNode(stmt.Ident))
 	} else {
-		buf.WriteString("remove " + stmt.Ident.String())
+		buf.WriteString("remove " + f.formatNode(stmt.Ident))
 	}
 	buf.WriteString(";")
 
@@ -348,7 +347,7 @@ func (f *Formatter) formatSwitchStatement(stmt *ast.SwitchStatement) string {
 	if v := f.formatComment(stmt.Control.Leading, " ", 0); v != "" {
 		buf.WriteString(v)
 	}
-	buf.WriteString("(" + strings.TrimSpace(f.formatExpression(stmt.Control.Expression).String()) + ")")
+	buf.WriteString("(" + f.formatExpression(stmt.Control.Expression).TrimmedString() + ")")
 	if v := f.formatComment(stmt.Control.Trailing, "", 0); v != "" {
 		buf.WriteString(" " + v)
 	}
@@ -489,7 +488,7 @@ func (f *Formatter) formatAddStatement(stmt *ast.AddStatement) string {
 	defer bufferPool.Put(buf)
 
 	buf.Reset()
-	buf.WriteString("add " + stmt.Ident.String())
+	buf.WriteString("add " + f.formatNode(stmt.Ident))
 	buf.WriteString(" " + stmt.Operator.Operator + " ")
 	buf.WriteString(f.formatExpression(stmt.Value).ChunkedString(stmt.Nest, buf.Len()))
 	buf.WriteString(";")
@@ -503,7 +502,7 @@ func (f *Formatter) formatCallStatement(stmt *ast.CallStatement) string {
 	defer bufferPool.Put(buf)
 
 	buf.Reset()
-	buf.WriteString("call " + stmt.Subroutine.String())
+	buf.WriteString("call " + f.formatNode(stmt.Subroutine))
 
 	// Add function arguments if specified
 	if len(stmt.Arguments) > 0 {
@@ -625,7 +624,7 @@ func (f *Formatter) formatGotoStatement(stmt *ast.GotoStatement) string {
 	defer bufferPool.Put(buf)
 
 	buf.Reset()
-	buf.WriteString("goto " + stmt.Destination.String())
+	buf.WriteString("goto " + f.formatNode(stmt.Destination))
 	buf.WriteString(";")
 
 	return buf.String()
